@@ -69,7 +69,9 @@ def run_case(spec, ctx):
             outside += int(bad.sum())
             who = _blame(E, {kk: v[[i]] for kk, v in env.items()}, t)
             ctx.violation("outside-boundary" if bdry else "outside",
-                          f"{who}|{_pathclass(path)}" + ("+touching" if "+touching" in getattr(out, "tag", "") else ""),
+                          (f"{who}|{_pathclass(path)}" if "depproduct-extparams" not in getattr(out, "tag", "")
+                           else f"{who}|depproduct-extparams-k2+")
+                          + ("+touching" if "+touching" in getattr(out, "tag", "") else ""),
                           f"{c['kind']}: {bad.sum()} of {len(st)} returned rows are not "
                           f"{'on the boundary' if bdry else 'in the domain'} (tol {t:.2g}), e.g. "
                           f"{ {kk: np.round(v[i], 6).tolist() for kk, v in env.items()} }")
